@@ -79,7 +79,8 @@ def gen_history(rng, tier):
                 ops.append(['fa', rng.randrange(1 << 16)]); live -= 1
     if rng.random() < 0.5:  # drain completely at the end
         for _ in range(live): ops.append([rng.choice(['fo', 'fa']), rng.randrange(1 << 16)])
-    return {'mode': 'heap', 'shape': shape, 'ops': ops, 'size_dtype': rng.choice(['int', 'int', 'int64', 'uint32', 'uint16', 'uint8', 'int8'])}
+    prelude = [['a', size()] for _ in range(rng.randint(2, 5))] + [['fa', rng.randrange(8)] for _ in range(rng.randint(1, 3))] if rng.random() < 0.5 else []
+    return {'mode': 'heap', 'shape': shape, 'ops': ops, 'prelude': prelude, 'size_dtype': rng.choice(['int', 'int', 'int64', 'uint32', 'uint16', 'uint8', 'int8'])}
 
 
 def check_tables(h, ref, res, step):
@@ -127,6 +128,11 @@ def check_tables(h, ref, res, step):
 
 def execute_history(case, res):
     from kyupy.sim import Heap
+    if case.get('prelude'):      # another allocator object used (and left with free chunks) before: allocators are independent
+        h0 = Heap(); live0 = []
+        for kind, arg in case['prelude']:
+            if kind == 'a': live0.append(h0.alloc(int(arg)))
+            elif live0: h0.free(live0.pop(arg % len(live0)))
     h = Heap()
     ref = RefHeap()
     ext_max_before = 0
